@@ -623,6 +623,113 @@ Definition check_case (tab : keytab) (c : schema * list value * string * list va
   match map2_opt (enc tab) (codecs sch) vs with Some ts => texts_ok sch ts | None => false end &&
   ostring_eqb (format_line tab sch parsed) (Some text).
 
+(* the same with a history: [after] are the texts the line objects (the generated one and the parsed
+   one) write AFTER read-only uses of their fields (sums of their durations, comparisons, to_v1,
+   formatting).  The model's values are immutable, so every one of them must still be the text of
+   [vs]. *)
+Definition check_case_hist (tab : keytab) (c : schema * list value * string * list value * list string) : bool :=
+  let '(sch, vs, text, parsed, after) := c in
+  check_case tab (sch, vs, text, parsed) &&
+  forallb (fun t => ostring_eqb (format_line tab sch vs) (Some t) &&
+                    ostring_eqb (format_line tab sch parsed) (Some t)) after.
+
+(* ------------------------------------------------------------------ duration programs (histories) *)
+
+(* A sequence of operations on SHARED duration objects.  The environment is the list of all objects
+   created so far (never shrinks); operands are named by position.  Every operation is a pure
+   function of the operands' values: an object of the implementation may never be changed by a
+   later operation, so after every step the text of EVERY live object must still be the model's
+   print of its value (prog_check). *)
+Inductive fstep :=
+| SParse (s : string)                    (* interpret_as_fractional / from_string *)
+| SNew (n d : Z) (td : option Z)         (* FractionalSymbolicDuration(n, d, td) *)
+| SAdd (i j : nat)                       (* env[i] + env[j]  (i = j allowed) *)
+| SAddInt (i : nat) (k : Z)              (* env[i] + k *)
+| SRAddInt (k : Z) (i : nat)             (* k + env[i] = env[i].__radd__(k) = env[i].__add__(k) *)
+| SSum (l : list nat)                    (* sum([env[i], ...]) = ((0 + x1) + x2) + ... *)
+| SNop.                                  (* a read-only use: ==, !=, float, str, format_* *)
+
+(* Python's sum over a non-empty list: 0 + x1 is x1.__radd__(0) = x1 + FSD(0) *)
+Definition frac_sum_py (l : list frac) : option frac :=
+  match l with
+  | [] => None
+  | x :: r => Some (fold_left frac_add r (frac_add x frac_zero))
+  end.
+
+Definition fstep_new (env : list frac) (s : fstep) : option (option frac) :=
+  match s with
+  | SParse t => match parse_frac t with Some f => Some (Some f) | None => None end
+  | SNew n d td => Some (Some (mk_frac n d td None))
+  | SAdd i j =>
+      match nth_error env i, nth_error env j with
+      | Some f, Some g => Some (Some (frac_add f g))
+      | _, _ => None
+      end
+  | SAddInt i k | SRAddInt k i =>
+      match nth_error env i with
+      | Some f => Some (Some (frac_add f (mk_frac k 1 None None)))
+      | None => None
+      end
+  | SSum l =>
+      match map_opt (nth_error env) l with
+      | Some fs => match frac_sum_py fs with Some f => Some (Some f) | None => None end
+      | None => None
+      end
+  | SNop => Some None
+  end.
+
+Definition fstep_run (env : list frac) (s : fstep) : option (list frac) :=
+  match fstep_new env s with
+  | Some (Some f) => Some (env ++ [f])%list
+  | Some None => Some env
+  | None => None
+  end.
+
+Fixpoint prog_run (env : list frac) (prog : list fstep) : option (list frac) :=
+  match prog with
+  | [] => Some env
+  | s :: r => match fstep_run env s with Some env' => prog_run env' r | None => None end
+  end.
+
+Fixpoint all2 {A B} (p : A -> B -> bool) (l : list A) (m : list B) : bool :=
+  match l, m with
+  | [], [] => true
+  | x :: l', y :: m' => p x y && all2 p l' m'
+  | _, _ => false
+  end.
+
+(* the text of a live object is read back as a duration that prints the same text *)
+Definition reprint (f : frac) : option string :=
+  match parse_frac (print_frac f) with Some g => Some (print_frac g) | None => None end.
+
+(* one observed object: the text it prints; that text survives parse + print (a sum whose
+   components all vanished prints as the empty text and is not readable: excluded) *)
+Definition obs_ok (f : frac) (t : string) : bool :=
+  String.eqb (print_frac f) t &&
+  (negb (nonempty t) || ostring_eqb (reprint f) (Some t)).
+
+Fixpoint last_opt {A} (l : list A) : option A :=
+  match l with [] => None | [x] => Some x | _ :: r => last_opt r end.
+
+(* the program with, after every step, what the implementation shows: the text of EVERY live
+   object, and the exact fields of the object the step created (if it created one) *)
+Fixpoint prog_check (env : list frac) (prog : list (fstep * (list string * option frac))) : bool :=
+  match prog with
+  | [] => true
+  | (s, (texts, created)) :: r =>
+      match fstep_new env s with
+      | Some o =>
+          let env' := match o with Some f => (env ++ [f])%list | None => env end in
+          all2 obs_ok env' texts &&
+          match o, created with
+          | Some f, Some st => frac_eqb f st
+          | None, None => true
+          | _, _ => false
+          end && prog_check env' r
+      | None => false
+      end
+  end.
+
 (* to_v1 of a performed note of version < 1.0.0 *)
 Definition step_pc (s : string) : option Z :=
   slookup s [("C", 0); ("D", 2); ("E", 4); ("F", 5); ("G", 7); ("A", 9); ("B", 11)].
